@@ -5,7 +5,7 @@ import ast
 from typing import Any, Dict, List, Optional, Set, Tuple
 
 from .. import linexpr as lx
-from ..cfacts import CUnit, call_args, callee, int_value, is_assign, strip, walk
+from ..cfacts import CUnit, dispatcher_of, call_args, callee, int_value, is_assign, strip, walk
 from ..core import AnalysisError, Report
 from ..linexpr import Env, c_ir, py_ir, to_lin
 from ..pycfg import path_to, run_typestate
@@ -563,7 +563,7 @@ def rule_widths(rep: Report, repo: Repo, cu: CUnit) -> None:
              'clone dispatch switches (case label = width literal, 1<<ww = width), Memory_init (accepted set, ww '
              'and word_mask tables), SUPPORTED_MEMORY_WIDTHS, reader/writer word codes, argparse choices', 14)
     ref = M.WIDTHS
-    for fn, impl in (('run_flat_loop', 'run_flat_loop_impl'), ('run_generic_loop', 'run_paged_loop_impl')):
+    for fn, impl in ((dispatcher_of(cu, 'run_flat_loop_impl'), 'run_flat_loop_impl'), (dispatcher_of(cu, 'run_paged_loop_impl'), 'run_paged_loop_impl')):
         params = cu.params(impl)
         wi, li = params.index('width'), params.index('ww')
         seen = set()
